@@ -1,1 +1,18 @@
+pub mod common;
+pub mod c01;
+pub mod c02;
 pub mod c17;
+
+use crate::engine::CaseOutcome;
+
+pub struct PropEntry {
+    pub id: &'static str,
+    pub run: fn(&str) -> i32,
+    pub case: fn(&[u32]) -> CaseOutcome,
+}
+
+pub const PROPS: &[PropEntry] = &[
+    PropEntry { id: "C01", run: c01::run_check, case: c01::case },
+    PropEntry { id: "C02", run: c02::run_check, case: c02::case },
+    PropEntry { id: "C17", run: c17::run, case: c17::case },
+];
